@@ -6,6 +6,10 @@ Read with `ast` from the source of `openpectus.engine.engine` and `openpectus.en
     out), each with the flag "inside `with self._lock`".  The label of a call is its last attribute, prefixed with
     the owner when the attribute is `tick` (`self.uod.hwl.tick` -> "hwl.tick", `self._command_manager.tick` ->
     "command_manager.tick") — the same labels the harness uses for its yield points;
+  * yield points *nested* in a sub-call of the tick, where a tick spends its time: `hwl.read_batch` / `hwl.write_batch`
+    (found in the bodies of the `Engine` methods the tick calls) and `uod.execute` — the exec function of a UOD
+    command — found in the methods of `CommandManager` reachable from `CommandManager.tick`; emitted as
+    (inner label, enclosing sub-call of `Engine.tick`), so their lock status is that of the enclosing sub-call;
   * the request entry points = the `Engine` methods that `EngineMessageHandlers` calls on `self.engine`; for each one
     whether its whole body (after the docstring) is `with self._lock:` blocks, and which attributes of `self` it
     touches outside the lock (calls of other `Engine` methods outside the lock are followed, depth <= 3).
@@ -137,6 +141,43 @@ def _touches_outside(fn: ast.FunctionDef, methods: dict[str, ast.FunctionDef], l
     return out
 
 
+def _nested(methods: dict[str, ast.FunctionDef], tick_labels: list[str]) -> list[tuple[str, str]]:
+    out: list[tuple[str, str]] = []
+    # hardware batch calls inside the Engine methods the tick calls
+    for lab in tick_labels:
+        fn = methods.get(lab)
+        if fn is None:
+            continue
+        for n in ast.walk(fn):
+            if isinstance(n, ast.Call):
+                ch = _chain(n.func)
+                if ch and ch[-1] in ("read_batch", "write_batch") and ("hwl." + ch[-1], lab) not in out:
+                    out.append(("hwl." + ch[-1], lab))
+    # the exec function of a UOD command: `<command>.execute(...)` reachable from CommandManager.tick
+    if "command_manager.tick" in tick_labels:
+        import openpectus.engine.command_manager as CM
+        tree = ast.parse(inspect.getsource(CM))
+        cls = next(n for n in tree.body if isinstance(n, ast.ClassDef) and n.name == "CommandManager")
+        cm = {n.name: n for n in cls.body if isinstance(n, ast.FunctionDef)}
+        seen, todo = set(), ["tick"]
+        found = False
+        while todo:
+            name = todo.pop()
+            if name in seen or name not in cm:
+                continue
+            seen.add(name)
+            for n in ast.walk(cm[name]):
+                if isinstance(n, ast.Call):
+                    ch = _chain(n.func)
+                    if ch and ch[0] == "self" and len(ch) == 2:
+                        todo.append(ch[1])
+                    if ch and len(ch) == 2 and ch[0] != "self" and ch[1] == "execute":
+                        found = True
+        if found:
+            out.append(("uod.execute", "command_manager.tick"))
+    return out
+
+
 def analyse() -> dict:
     cls, methods = _engine_class()
     locks = _locks(methods)
@@ -150,7 +191,8 @@ def analyse() -> dict:
         body = _body(fn)
         locked = bool(body) and all(_is_lock_with(st, lockset) for st in body)
         entries.append((name, locked, sorted(_touches_outside(fn, methods, lockset))))
-    return {"locks": locks, "tick": _tick_calls(methods["tick"], lockset), "entries": entries}
+    tick = _tick_calls(methods["tick"], lockset)
+    return {"locks": locks, "tick": tick, "nested": _nested(methods, [lab for (lab, _) in tick]), "entries": entries}
 
 
 def generate() -> dict:
@@ -159,6 +201,7 @@ def generate() -> dict:
     def lst(xs):
         return "[" + ", ".join(_lean_str(x) for x in xs) + "]"
     tick = ",\n  ".join(f"({_lean_str(lab)}, {'true' if ins else 'false'})" for (lab, ins) in a["tick"])
+    nested = ", ".join(f"({_lean_str(a)}, {_lean_str(b)})" for (a, b) in a["nested"])
     ents = ",\n  ".join(f"⟨{_lean_str(n)}, {'true' if lk else 'false'}, {lst(t)}⟩" for (n, lk, t) in a["entries"])
     src = f"""import OPM.Model.TickLock
 /-! GENERATED by harness/translators/lock_table.py from the source of `openpectus.engine.engine.Engine` and
@@ -173,6 +216,9 @@ def locks : List String := {lst(a["locks"])}
 def tickCalls : List (String × Bool) := [
   {tick}
 ]
+
+/-- yield points nested inside a sub-call of the tick: (inner label, enclosing sub-call) -/
+def nested : List (String × String) := [{nested}]
 
 /-- the `Engine` methods the aggregator's requests arrive at (called by `EngineMessageHandlers`) -/
 def entries : List Entry := [
